@@ -128,8 +128,8 @@ def rule_x5(text, counts):
 def apply_rewrites(text, rewrites, counts, applied):
     for rw in rewrites:
         find, repl = rw["find"], rw["replace"]
-        want = int(rw.get("count", 1))
         got = text.count(find)
+        want = got if (rw.get("count") == "any" and got >= 1) else int(rw.get("count", 1) if rw.get("count") != "any" else 1)
         if got != want:
             raise rustscan.LostAnchor(
                 f"{rw['rule']}: anchor occurs {got}x, expected {want}x: {find[:70]!r}")
@@ -194,6 +194,67 @@ def extract_item(scratch, item, counts, applied):
         loc = rustscan.find_fn(src, item.get("impl", ""), item["name"], masked)
         text = src[loc["item_start"]:loc["end"]]
         line = src.count("\n", 0, loc["fn_kw"]) + 1
+    elif kind == "stmts":
+        # Rule X10: a run of `count` consecutive statements inside a function body, located by an
+        # anchor text that must occur exactly once in the file (comments / strings masked), cut at
+        # statement boundaries found by bracket matching, and wrapped between the recipe's
+        # `wrap_head` and `wrap_tail` so that it becomes a function of its free variables.
+        anchors = item["anchor"] if isinstance(item["anchor"], list) else [item["anchor"]]
+        a = -1
+        for anc in anchors:  # the first listed anchor that occurs exactly once
+            a = masked.find(anc)
+            if a >= 0 and masked.find(anc, a + 1) < 0:
+                break
+            a = -1
+        if a < 0:
+            raise rustscan.LostAnchor(f"X10: no statement anchor found exactly once: {anchors!r}")
+        start = src.rfind("\n", 0, a) + 1
+        pos = a
+        nstmts = 0
+        while True:
+            if item.get("until"):
+                if item["until"] in masked[a:pos]:
+                    break
+                if nstmts >= 8:
+                    raise rustscan.LostAnchor(f"X10: `until` anchor not reached within 8 statements: {item['until']!r}")
+            elif nstmts >= int(item.get("count", 1)):
+                break
+            nstmts += 1
+            while pos < len(src) and masked[pos].isspace():
+                pos += 1
+            head = masked[pos:pos + 8]
+            block_stmt = re.match(r"(if|for|while|match|loop)\b", head) is not None
+            depth = 0
+            while pos < len(src):
+                ch = masked[pos]
+                if ch in "([{":
+                    depth += 1
+                elif ch in ")]}":
+                    depth -= 1
+                    if depth < 0:
+                        raise rustscan.LostAnchor("X10: statement runs past its enclosing block")
+                    if depth == 0 and ch == "}" and block_stmt:
+                        rest = masked[pos + 1:pos + 40].lstrip()
+                        if not rest.startswith("else"):
+                            pos += 1
+                            break
+                elif ch == ";" and depth == 0:
+                    pos += 1
+                    break
+                pos += 1
+            else:
+                raise rustscan.LostAnchor("X10: statement end not found")
+        body = src[start:pos]
+        fnm = None
+        for m in re.finditer(r"\bfn\s+(\w+)", masked[:a]):
+            fnm = m.group(1)
+        item = dict(item)
+        item["name"] = f"{item['name']} (statements of fn {fnm})"
+        text = body
+        line = src.count("\n", 0, a) + 1
+        counts["X10"] = counts.get("X10", 0) + 1
+        applied.append({"rule": "X10", "find": src[a:a + 60], "replace": "(wrapped) " + item["wrap_head"][:120],
+                        "count": nstmts})
     else:
         loc = rustscan.find_type_item(src, kind, item["name"], masked)
         text = src[loc["item_start"]:loc["end"]]
@@ -212,6 +273,8 @@ def extract_item(scratch, item, counts, applied):
         text = splice_loop_invariants(text, item["loop_invariants"])
     if item.get("wrap_impl"):
         text = item["wrap_impl"] + " {\n" + text + "\n}\n"
+    if kind == "stmts":
+        text = item["wrap_head"] + "\n" + text + "\n" + item["wrap_tail"] + "\n"
     return text, {"item": f"{kind} {item.get('impl', '')}::{item['name']}".replace(" ::", " "),
                   "where": f"{item['file']}:{line}", "original_lines": original.count("\n") + 1}
 
